@@ -133,7 +133,7 @@ impl Collector {
                 Decision::SlowAck(ms)
             }
             2 => {
-                let st = *self.sched.lock().choices.pick(&[500u32, 503, 429, 400]);
+                let st = *self.sched.lock().choices.pick(&[500u32, 503, 429, 400, 307, 404]);
                 Decision::Status(st)
             }
             3 => Decision::CloseBeforeRead,
@@ -273,10 +273,16 @@ async fn http1_conn(mut stream: SimStream, col: Arc<Collector>, host: HostCfg, c
         }
         let status = match decision {
             Decision::Status(s) => s,
-            _ => 200,
+            _ => {
+                if col.sched.lock().choices.chance(1, 6) {
+                    204
+                } else {
+                    200
+                }
+            }
         };
         // real collectors answer with a body (an ExportServiceResponse / an error text) more often than not
-        let body: &str = if !col.sched.lock().choices.chance(2, 3) {
+        let body: &str = if status == 204 || !col.sched.lock().choices.chance(2, 3) {
             ""
         } else if status == 200 {
             "{\"partialSuccess\":{}}"
@@ -288,7 +294,7 @@ async fn http1_conn(mut stream: SimStream, col: Arc<Collector>, host: HostCfg, c
         }
         let resp = format!("HTTP/1.1 {status} Sim\r\ncontent-type: application/json\r\ncontent-length: {}\r\n\r\n{body}", body.len());
         let ok = stream.write_all(resp.as_bytes()).await.is_ok();
-        entry.acked = ok && status == 200;
+        entry.acked = ok && (status == 200 || status == 204);
         entry.done_at = Some(col.sched.now());
         col.log.lock().unwrap().push(entry);
         if !ok {
@@ -666,7 +672,13 @@ fn emit_one(otlp: &emit_otlp::Otlp, ev: &Ev, n: u64) {
         }
         Kind::Unknown => props.push(("evt_kind", emit::Value::from("something_else"))),
     }
-    let evt = emit::Event::new(emit::path!("sim::otlp"), emit::Template::literal("simulated event"), extent, &props[..]);
+    // several scopes in one batch: requests group their items by module
+    let mdl = match n % 3 {
+        0 => emit::path!("sim::otlp"),
+        1 => emit::path!("other_scope"),
+        _ => emit::path!("sim::otlp::nested::deeper"),
+    };
+    let evt = emit::Event::new(mdl, emit::Template::literal("simulated event"), extent, &props[..]);
     otlp.emit(&evt);
 }
 
@@ -796,6 +808,13 @@ impl Engine for OtlpSim {
             }
         }
         let final_flush = !ch.chance(1, 4);
+        let custom_headers = ch.chance(1, 3);
+        // rarely: one event that alone exceeds the 1 MiB request limit
+        if !c14 && ch.chance(1, 150) && !events.is_empty() {
+            let k = ch.choose(events.len() as u32) as usize;
+            events[k].payload = 1_100_000 + ch.choose(100_000) as usize;
+            events[k].noisy = false;
+        }
         let max_chunk = *ch.pick(&[64 * 1024usize, 16 * 1024, 1500, 64 * 1024]);
 
         // --- the simulated world
@@ -831,9 +850,16 @@ impl Engine for OtlpSim {
         let mut builder = emit_otlp::new();
         for h in &hosts {
             let url = |path: &str| format!("http://{}:4318{}", h.host, path);
-            let transport = |path: &str| match h.transport {
-                Transport::GrpcProto => emit_otlp::grpc(format!("http://{}:4317", h.host)).allow_compression(h.gzip),
-                _ => emit_otlp::http(url(path)).allow_compression(h.gzip),
+            let transport = |path: &str| {
+                let t = match h.transport {
+                    Transport::GrpcProto => emit_otlp::grpc(format!("http://{}:4317", h.host)).allow_compression(h.gzip),
+                    _ => emit_otlp::http(url(path)).allow_compression(h.gzip),
+                };
+                if custom_headers {
+                    t.headers([("x-api-key", "secret"), ("x-tenant", "sim"), ("x-tenant", "sim-again")])
+                } else {
+                    t
+                }
             };
             builder = match (h.signal, h.transport) {
                 (Signal::Logs, Transport::HttpJson) => builder.logs(emit_otlp::logs_json(transport("/v1/logs"))),
